@@ -46,10 +46,11 @@ def all_units():
 
 def gen_struct(repo, sdef, rw):
     """struct generated from the member list of the real class (R2 support)."""
-    text = cxx2c.strip_comments(open(os.path.join(repo, sdef['file'])).read())
     lines = []
     names = set()
-    for cls in sdef['classes']:
+    parts = sdef.get('parts') or [(sdef['file'], c) for c in sdef['classes']]
+    for pfile, cls in parts:
+        text = cxx2c.strip_comments(open(os.path.join(repo, pfile)).read())
         for ty, nm, dim in cxx2c.class_members(text, cls):
             if ty.startswith('static'):
                 continue
@@ -92,6 +93,13 @@ def extract_unit(unit, repo=REPO):
         else:
             types.append('typedef %s_e %s;' % (cn, cn))
         rw.fire('R15e')
+    for f, name in unit.get('ctypedefs', []):
+        txt = cxx2c.strip_comments(open(os.path.join(repo, f)).read())
+        m = re.search(r'^typedef\s+struct\s+\w*\s*\{[^}]*\}\s*' + re.escape(name) + r'\s*;', txt, re.M)
+        if not m:
+            raise cxx2c.ExtractError('typedef struct %s not found in %s' % (name, f))
+        types.append(re.sub(r'\bbool\b', '_Bool', m.group(0)))
+        rw.fire('R15t')
     members = set(cfg.get('members', ()))
     for sdef in unit.get('structs', []):
         s, names = gen_struct(repo, sdef, rw)
@@ -295,6 +303,9 @@ def run_one(unit, run, exinfo, tier, want_trace=False, nocache=False):
         fn_ = r.get('sourceLocation', {}).get('function', '') or ''
         if fn_.startswith('h_') and fn_ != entry:
             continue  # other harnesses of the same translation unit
+        if 'arithmetic overflow on signed shl' in (r.get('description') or ''):
+            res.setdefault('dropped_cxx_defined', []).append(r.get('property'))
+            continue  # defined behaviour in C++14 and later ([expr.shift]) for values representable in the unsigned type
         kind, cls = classify(r.get('property', ''), r.get('description', ''))
         sl = r.get('sourceLocation', {})
         o = dict(id=r.get('property'), desc=r.get('description'), status=r.get('status'), kind=kind, cls=cls,
